@@ -79,7 +79,7 @@ def run(ctx):
         broken = b
     vh = common.build_harness()
     if ctx.tier == "thorough":
-        args = ["-seed", str(ctx.seed), "-n", "1500", "-blocks", "40", "-chunk", "12"]
+        args = ["-seed", str(ctx.seed), "-n", "1000", "-blocks", "40", "-chunk", "10"]
     else:
         args = ["-seed", str(ctx.seed), "-n", "120", "-blocks", "30", "-chunk", "5"]
     rep, cases, mm, mv, st = evaluate(ctx, vh, args)
